@@ -261,6 +261,9 @@ class AbstractOfflineSpecification(AbstractSpecification):
         self.name = 'Abstract Offline Specification'
         self.offline_interpreter = offlineInterpreter
         self.explainer = explainer
+        # the offline interpreter has a flag of its own: a specification that owns both
+        # interpreters hands the ast to each of them before its first use
+        self.offline_set_ast_flag = False
 
     def explain(self):
         # the explainer reads the bounds of timed operators in samples, as the evaluation did
@@ -269,9 +272,9 @@ class AbstractOfflineSpecification(AbstractSpecification):
 
     # forwarding to interpreter
     def evaluate(self, *args, **kwargs):
-        if self.set_ast_flag != True:
+        if self.offline_set_ast_flag != True:
             self.offline_interpreter.set_ast(self.ast)
-            self.set_ast_flag = True
+            self.offline_set_ast_flag = True
 
         #TODO we may make it consistent with interpreter class.
         if isinstance(self.offline_interpreter, AbstractDenseTimeOfflineInterpreter):
